@@ -291,6 +291,34 @@ theorem reachable_conflict_is_real {U : UCfg} (hP : Pruned U) {x : Var} {b : Blk
     TyAtReal U x b (some t₁) ∧ TyAtReal U x b (some t₂) :=
   ⟨reachable_types_from_real_paths hP h₁ hb, reachable_types_from_real_paths hP h₂ hb⟩
 
+
+theorem livePathReal_dead {U : UCfg} (hP : Pruned U) {x : Var} {b : Blk}
+    (h : LivePathReal U x b) (hb : ¬ RealReach U b) : DeadRead U x := by
+  induction h with
+  | @use b hu => exact ⟨b, hb, hu⟩
+  | @step b c _ hs _ ih =>
+    exact ih fun hc => hb (hP b c (List.mem_append_left _ hs) hc).1
+
+/-- **Where a "not defined" rejection comes from.**  In a pruned CFG a path on which `x` is read before
+    being assigned either runs over real edges only (a path the program can take, branch conditions
+    ignored) or ends at a read inside unreachable code. -/
+theorem livePath_real_or_dead {U : UCfg} (hP : Pruned U) {x : Var} {b : Blk}
+    (h : LivePath U.cfg x b) : LivePathReal U x b ∨ DeadRead U x := by
+  induction h with
+  | use hu => exact Or.inl (.use hu)
+  | @step b c hna he _ ih =>
+    rcases ih with hr | hd
+    · by_cases hc : RealReach U c
+      · exact Or.inl (.step hna (hP b c he hc).2 hr)
+      · exact Or.inr (livePathReal_dead hP hr hc)
+    · exact Or.inr hd
+
+/-- so: a program whose unreachable code reads nothing unassigned is rejected as "not defined" only for a
+    real path from the entry -/
+theorem undef_real_or_dead {U : UCfg} (hP : Pruned U) {x : Var} (h : Undef U x) :
+    LivePathReal U x U.entry ∨ DeadRead U x :=
+  livePath_real_or_dead hP h.2.2
+
 /-! ## Non-vacuity: `if c: x = 1` / `else: pass`, then read `x`; and a re-typed variable. -/
 
 /-- blocks 0 (entry; reads c=1) → 2 (x=5 := int) | 3 ; both → 4 (reads x) → 1 (exit) -/
